@@ -10,6 +10,20 @@ CLAIMED = {
          "Lean kernel + propext/Classical.choice/Quot.sound; model hand-written, tie = differential scripts + direct oracle; u64 arithmetic modelled in Nat (sum of lengths < 2^63); binary_search_by_key by contract.",
          "Lean 4 proof (invariant over API operation sequences) + model/implementation correspondence", "DESIGN.md §5 C16"),
 }
+CLAIMED.update({
+ "C02": ("Lean 4 evaluator model of the core language (store-passing call-by-need interpreter with thunk states, environments, object layers, argument binding, per-step trace depth) with kernel-checked theorems: fuel monotonicity and determinism of outcomes (via monotonicity of one evaluator level in the flat order, proved compositionally), and the specification's desugaring equations as equalities of outcomes; tied to the code by a differential run of generated programs (value / error kind+message / std.trace sequence) and by the same equations and parenthesisation-invariance checked directly on the implementation. Partial: 'model = specification' is trusted reading, not a theorem (C02_core_semantics_full).",
+         "Lean kernel + propext/Classical.choice/Quot.sound; Lean Float stands for IEEE binary64; model hand-written from the spec in the shape of eval/*.rs; unsupported model corners (float formatting, fmod range, %, import) skipped and counted.",
+         "Lean 4 proof (order-theoretic monotonicity, definitional desugaring laws) + model/implementation correspondence", "DESIGN.md §5 C02"),
+ "C07": ("Lean 4 theorems over the object-layer model (associativity and identities of extension observed through lookup/visibility/order/values, self/super resolution, visibility merge rules, agreement of the five existence views, exactness of objectRemoveKey incl. values of fields that do not read the removed key), tied to data.rs by generated object chains in every bracketing evaluated by implementation and model, plus implementation-only oracles (assoc, identity, views agree, removeKey exact).",
+         "Lean kernel + standard axioms; model hand-written (per-name fold equivalent to the BTreeMap fold: assumption, differentially tested); asserts outside the model.",
+         "Lean 4 proof (structural induction over layer lists) + correspondence + direct algebraic oracles", "DESIGN.md §5 C07"),
+ "C09": ("Lean 4 model of analyze.rs (traversal order, first error) proved equivalent to a declarative well-scopedness predicate for every syntax tree and environment (mutual structural induction): accepted iff well scoped, dead code included; tied to the code by fault injection at every node kind (expected error kind+name known by construction) and by evaluating accepted programs under catch_unwind (no unbound-variable/self/$ panic).",
+         "Lean kernel + propext/Quot.sound; model hand-written; spans not compared (C16).",
+         "Lean 4 proof (analyze = ok iff WellScoped) + correspondence + fault injection", "DESIGN.md §5 C09"),
+ "C18": ("Lean 4 theorems over a code-point/byte-offset model of the string builtins (length, index, slice, substr, findSubstr bookkeeping, split/splitLimit/splitLimitR, join, strip, replace, char/codepoint, reverse, map/flatMap, field padding), tied to stdlib.rs/expr.rs by generated mixed-width strings through implementation and model and by Python str as independent oracle.",
+         "Lean kernel + standard axioms; Rust std str primitives modelled from their documented contracts; strings < usize::MAX chars.",
+         "Lean 4 proof + correspondence + Python reference oracle", "DESIGN.md §5 C18"),
+})
 NOT_YET = "check not built yet in this round (no machinery committed for it)"
 
 hooks_commits = subprocess.run(["git", "-C", "/repo", "log", "--format=%H", "--grep=^verif-hooks"],
